@@ -56,6 +56,8 @@ def probe_frame(rng, obj, X, mode):
             if mode in ("nan", "mixed") and n:
                 vals[rng.randrange(n)] = None
             cols[raw] = pd.Series(vals, dtype=object)
+            if n and all(v is None or isinstance(v, str) for v in vals) and rng.random() < 0.15:
+                cols[raw] = cols[raw].astype("category")      # the same strings in a pandas category dtype column
     Xn = pd.DataFrame(cols)
     Xn.index = fitgen._index(rng, n)
     Xn["extra_col"] = list(range(n))
